@@ -70,16 +70,18 @@ DurShapes == { <<"pos", Dur(5)>>, <<"neg", Dur(0 - 5)>>, <<"hour", Dur(3725)>>, 
               <<"d28", Dur(2419200)>>, <<"neg29d", Dur(0 - 2505600)>>, <<"d340", Dur(29376000)>>, <<"d400h5", Dur(34578000)>> }   \* beyond the lengths of a month and a year
 UintShapes == { <<"one", Int(1)>>, <<"big", Int(123456)>> }
 IntShapes == { <<"pos", Int(12)>>, <<"neg", Int(0 - 12)>> }
-FloatShapes == { <<"pos", Flt("36.75")>>, <<"neg", Flt("-122.5")>>, <<"small", Flt("0.000001")>>, <<"whole", Flt("100")>>, <<"precise", Flt("-122.4194155")>>, <<"tiny", Flt("0.0000001")>> }
+FloatShapes == { <<"pos", Flt("36.75")>>, <<"neg", Flt("-122.5")>>, <<"small", Flt("0.000001")>>, <<"whole", Flt("100")>>, <<"precise", Flt("-122.4194155")>>, <<"tiny", Flt("0.0000001")>>,
+                <<"tiny-digits", Flt("0.000000247164515977853")>>, <<"huge-digits", Flt("1234567890123456800000")>> }   \* exponent form for an independent writer
 StrShapes(kind, t) ==
-  CASE kind = "mime" -> {<<"mime", Str("text/html")>>}
+  CASE kind = "mime" -> {<<"mime", Str("text/html")>>, <<"mime-param", Str("text/markdown; charset=\"utf-8\"")>>}   \* a quoted parameter value
     [] kind = "type" -> {<<"type", Str("Note")>>}
     [] kind = "iri" -> {<<"iri", Str(Base \o "rel/" \o t)>>}
     [] kind = "lang" -> {<<"lang", Str("en")>>}
     [] OTHER -> {<<"str", Str("miles")>>}
 SourceShapes == { <<"plain", [k |-> "source", p |-> [content |-> Nlv(<<LR(NilTag, "# md")>>), mediaType |-> Str("text/markdown")]]>>,
                   <<"content-only", [k |-> "source", p |-> [content |-> Nlv(<<LR(NilTag, "src")>>)]]>>,
-                  <<"multi", [k |-> "source", p |-> [content |-> Nlv(<<LR("en", "src"), LR("fr", "srcfr")>>), mediaType |-> Str("text/plain")]]>> }
+                  <<"multi", [k |-> "source", p |-> [content |-> Nlv(<<LR("en", "src"), LR("fr", "srcfr")>>), mediaType |-> Str("text/plain")]]>>,
+                  <<"mime-param", [k |-> "source", p |-> [content |-> Nlv(<<LR(NilTag, "# md")>>), mediaType |-> Str("text/markdown; charset=\"utf-8\"")]]>> }
 EndpointsShapes == { <<"ep-" \o EndpointsProps[i].t, [k |-> "endpoints", p |-> [x \in {EndpointsProps[i].t} |-> I1]]>> : i \in 1..Len(EndpointsProps) }
                    \cup { <<"ep-all", [k |-> "endpoints", p |-> [x \in Terms(EndpointsProps) |-> Iri(Base \o "ep/" \o x)]]>> }
 PubKeyShapes == { <<"id-only", [k |-> "pubkey", p |-> [id |-> Str(Base \o "actor#main-key")]]>>, <<"owner-only", [k |-> "pubkey", p |-> [owner |-> Str(Base \o "actor")]]>>,
